@@ -2,6 +2,7 @@
 from typing import Callable, Sequence
 
 from pbhhg_py import abstract_syntax as AS
+from pbhhg_py import error
 from pbhhg_py import utils
 
 Op = Callable[[int], int] | Callable[[int, int], int]
@@ -25,7 +26,12 @@ def build_tbl(
             argv = yield from utils.match_arguments(
                 metadata, argv, AS.Integer, arity
             )
-            return AS.Integer(op(*(arg.value for arg in argv)))
+            try:
+                return AS.Integer(op(*(arg.value for arg in argv)))
+            except (OverflowError, MemoryError):  # shift count too large
+                raise error.UnsuspectedHangeulArithmeticError(
+                    metadata, "계산할 수 없는 값입니다."
+                ) from None
 
         return _proc
 
